@@ -25,13 +25,24 @@ let path_str p =
   end
 let drop_last l = match List.rev l with [] -> [] | _ :: t -> List.rev t
 
+(* a member name: "k<hex>" up to 32 bytes, else "K<length>.<FNV-1a 64>.<first 8 bytes>.<last 8 bytes>" *)
+let key_str (k : z list) =
+  let n = List.length k in
+  if n <= 32 then "k" ^ hex_of_bytes k else begin
+    let a = Array.of_list (List.map int_of_z k) in
+    let h = ref 0xcbf29ce484222325L in
+    Array.iter (fun b -> h := Int64.mul (Int64.logxor !h (Int64.of_int b)) 0x100000001b3L) a;
+    let hex lo hi = String.concat "" (List.init (hi - lo) (fun i -> Printf.sprintf "%02x" a.(lo + i))) in
+    Printf.sprintf "K%d.%016Lx.%s.%s" n !h (hex 0 8) (hex (n - 8) n)
+  end
+
 let ev_str e =
   let parent = match e.ev_parent with
     | PNone -> "-"
     | PArr -> "a@" ^ path_str (drop_last e.ev_path)
     | PObj -> "o@" ^ path_str (drop_last e.ev_path) in
   let ki = match e.ev_key with
-    | KNone -> "-" | KKey k -> "k" ^ hex_of_bytes k | KIdx i -> "i" ^ string_of_z i in
+    | KNone -> "-" | KKey k -> key_str k | KIdx i -> "i" ^ string_of_z i in
   Printf.sprintf "%s %s %s %s %s" (path_str e.ev_path) (string_of_z e.ev_flags) parent ki (string_of_z e.ev_depth)
 
 let show (calls, ret) = String.concat " | " (List.rev (("ret " ^ string_of_z ret) :: List.rev_map ev_str calls))
